@@ -319,7 +319,18 @@ def c10_quant_part(ctx):
     seeds: every run must equal the (deterministic) model, hence every other run"""
     scs, meta = gen_quant.gen_k50(ctx.rng("c10q"), 150 if ctx.quick else 2000, downward=True, nested=0.3)
     s2, m2 = gen_quant.gen_k50_interleaved(ctx.rng("c10qi"), 40 if ctx.quick else 500)
-    run_q(ctx, "K7 quantifiers under several hash seeds", scs + s2, [], hashseeds=(0, 1, 2, 3) if ctx.quick else (0, 1, 2, 3, 4, 5, 6, 7))
+    seeds = (0, 1, 2, 3) if ctx.quick else (0, 1, 2, 3, 4, 5, 6, 7)
+    m, impl, lines = run_q(ctx, "K7 quantifiers under several hash seeds", scs + s2, [], hashseeds=seeds)
+    for k, line in enumerate(lines):
+        base = impl[seeds[0]][k]
+        for hs in seeds[1:]:
+            if impl[hs][k] != base:
+                a, b = sx.loads(base), sx.loads(impl[hs][k])
+                pos = next((n for n, (x, y) in enumerate(zip(a, b)) if x != y), None) if isinstance(a, list) and isinstance(b, list) else None
+                ctx.violation("quant_c10_seed", line, hs, f"identical tables after every call under PYTHONHASHSEED={seeds[0]} and {hs}",
+                              f"first difference at op #{pos}: {sx.dumps(a[pos])[:300] if pos is not None else base[:300]} vs {sx.dumps(b[pos])[:300] if pos is not None else impl[hs][k][:300]}",
+                              None, extra={"hashseed_a": seeds[0], "hashseed_b": hs})
+                break
     ctx.cov["quantifier_distribution"] = qdist(meta + m2)
 
 
@@ -552,7 +563,8 @@ def check_C12(ctx):
     scs, meta = gen_c12(ctx, 400 if ctx.quick else 5000)
     s2, m2 = gen_quant.gen_k50_interleaved(ctx.rng("c12i"), 60 if ctx.quick else 800)
     s3, m3 = gen_quant.gen_k50_nested_full(ctx.rng("c12n"), 80 if ctx.quick else 1000)
-    s2, m2 = s2 + s3, m2 + m3
+    s4, m4 = gen_quant.gen_k50_resize_chain(ctx.rng("c12r"), 80 if ctx.quick else 1000)
+    s2, m2 = s2 + s3 + s4, m2 + m3 + m4
     for sc in s2:
         sc.append([])        # no hidden reading: these scenarios serve the exact comparison with the model
     scs, meta = scs + s2, meta + m2
